@@ -130,12 +130,16 @@ class NameDatabase:
         return name
 
     def __getitem__(self, value):
-        if isinstance(value, (int, float, str)):
+        if type(value) in (int, bool, str) or (
+            type(value) is float and value - value == 0
+        ):
+            # Only values whose repr is the same value again (not an enum
+            # member or another subclass, not inf or nan)
             return repr(value)
         if id(value) in self.names:
             return self.names[id(value)]
         name = getattr(value, "__name__", self.default_name)
-        if not re.match(string=name, pattern=r"[a-zA-Z_][a-zA-Z0-9_]+"):
+        if not re.fullmatch(string=name, pattern=r"[a-zA-Z_][a-zA-Z0-9_]+"):
             name = self.default_name
         name = self.gensym(name)
         self.variables[name] = value
